@@ -54,3 +54,11 @@ e2prop("C12", "Threshold Schnorr (DSS)", "c12",
        ["dss.NewDSS", "DSS.PartialSig", "DSS.ProcessPartialSig", "DSS.EnoughPartialSig", "DSS.Signature", "DSS.hashSig", "dss.sessionID", "PartialSig.Hash", "dss.findPub", "dss.Verify (concrete twin)", "share.RecoverSecret", "PubPoly.Eval", "schnorr.Sign/Verify", "dkg(pedersen).NewDistKeyHandler/Deals/ProcessDeals/ProcessResponses (keys=dkg scenarios)"],
        ["quick: 2<=n<=4, 1<=t<=n, every t-subset of signers in 2-3 orders, 9 fault kinds per (n,t), DKG-derived keys for (3,2),(4,3)", "thorough: n<=6, DKG-derived keys also (5,3),(5,4), second solver"],
        ["dss.Verify/eddsa.Verify are Ed25519-concrete: exercised on the concrete twin only", "n > 6", "Rabin-DKG-derived keys (same DistKeyShare interface)"])
+
+e2prop("C10", "Verifiable secret sharing (Pedersen and Rabin)", "c10",
+       "the real share/vss/pedersen and share/vss/rabin (dealer, verifiers, real HKDF/AES-GCM/protobuf/Schnorr on token bytes) run on symbolic secrets under an honest or malicious dealer: per-verifier deal kind x response faults x justification behaviour x timeout x delivery order. Claims: honest run => all approve, certified, every t-subset of approved deals recovers the dealt secret (validity), SecretCommit = secret*G; a share off the committed polynomial is never approved (unsat for delta != 0), wrong index / out-of-range T / foreign recipient / unauthenticated DH key / truncated ciphertext / replay give a complaint or an error; forged, relabelled, foreign-session and duplicate responses are refused; a correct justification clears the complaint, an incorrect one marks the dealer bad for good; DealCertified() only with >= t approvals-or-correct-justifications and no invalid justification (spec computed by the harness from the history).",
+       ["vss.NewDealer", "Dealer.EncryptedDeal(s)", "Dealer.PlaintextDeal", "Dealer.ProcessResponse", "Dealer.SecretCommit", "Dealer.SetTimeout", "vss.NewVerifier", "Verifier.ProcessEncryptedDeal", "Verifier.decryptDeal", "Verifier.ProcessResponse", "Verifier.ProcessJustification", "Verifier.Deal", "Verifier.SetTimeout", "Aggregator.VerifyDeal", "Aggregator.verifyResponse", "Aggregator.addResponse", "Aggregator.verifyJustification", "Aggregator.DealCertified", "(rabin) aggregator.EnoughApprovals/cleanVerifiers/deriveH", "vss.RecoverSecret", "vss.sessionID", "Response.Hash", "Justification.Hash", "Deal.Marshal/Unmarshal", "vss.dhExchange/newAEAD/context", "internal/protobuf Encode/Decode (concretely, on token bytes)", "schnorr.Sign/Verify"],
+       ["quick: 2<=n<=4, every valid t; all-honest x 6 response faults x 3 timeouts x 3 orders; one faulty deal of each of 12 kinds at every position x 5 justification behaviours; two faulty deals exhaustively for n=3 (seeded 1/6 sample for n=4); both variants", "thorough: n<=6, second solver"],
+       ["n > 6", "byte-level corruption of ciphertexts beyond truncation (AES-GCM is executed concretely; its authenticity is the library's)", "deals whose SessionID FIELD is altered", "authenticity of justifications (their signature is never verified by the code; not part of the property)"],
+       overlay={"share/vss/pedersen/zz_verif_hook.go": "e2/overlays/vss_pedersen/zz_verif_hook.go", "share/vss/rabin/zz_verif_hook.go": "e2/overlays/vss_rabin/zz_verif_hook.go"})
+PROPS["C10"]["stubs"] = ["overlay hook (add-only, not committed): Dealer.VerifEncryptDeal(i, deal) encrypts an arbitrary Deal for verifier i through the real EncryptedDeal path"]
